@@ -169,7 +169,7 @@ pub fn features_case(c: &mut Choices) -> Case {
             off.enable_object_slots = false;
         }
         "customElementPatterns" => {
-            on.patterns = vec!["^i-".into(), "el".into(), "^my-".into()];
+            on.patterns = vec!["^i-".into(), "el".into(), "^my-".into(), "^Ion".into()];
             off.patterns = vec![];
         }
         _ => {
